@@ -285,7 +285,16 @@ func (p *poller) readWriteLoop() {
 								_ = c.closeWithError(err)
 								continue
 							}
-							c.resetRead()
+							// The callback may have written and left data cached:
+							// the writing event must stay set then, and a
+							// one-shot event needs to be armed again with it.
+							c.mux.Lock()
+							if len(c.writeList) == 0 {
+								c.resetRead()
+							} else if isOneshot && !c.closed {
+								_ = p.modWrite(fd)
+							}
+							c.mux.Unlock()
 						}
 					}
 
